@@ -509,13 +509,15 @@ class YamlShim:
     """safe_load is the real one (parameter files are concrete text); dump records the
     object handed over, so that the oracle reads structure and (symbolic) numbers back."""
 
-    def __init__(self):
+    def __init__(self, lift=True):
         import yaml as _yaml
         self._yaml = _yaml
         self.dumped = []
+        self.lift = lift
 
     def safe_load(self, stream):
-        return _lift_floats(self._yaml.safe_load(stream))
+        data = self._yaml.safe_load(stream)
+        return _lift_floats(data) if self.lift else data
 
     def dump(self, data, stream=None, **kw):
         self.dumped.append(data)
